@@ -136,6 +136,25 @@ func TestLabContracts(t *testing.T) {
 	if len(status(b)) != 3 || codeLen(child) == 0 || slot(child, 4) != 0 || slot(child, 2) != 2 || slot(child, 7) != 1 {
 		t.Fatalf("kill + re-creation in one block did not behave as expected")
 	}
+	// 6. converter: a conversion originating from a contract
+	ctx, conv, err := DeployTx(qk[3], pool.Nonce(qk[3].Internal()), LabConverterInit(), big.NewInt(0), 2_000_000, gp)
+	submit(ctx, err)
+	b = mine()
+	qi := QiKeys(2)[1].Addr
+	val := new(big.Int).Mul(big.NewInt(700), big.NewInt(4e18))
+	submit(QuaiTx(qk[3], pool.Nonce(qk[3].Internal()), &conv, val, 600_000, gp, qi.Bytes(), types.AccessList{{Address: conv}}))
+	b = mine()
+	nconv := 0
+	for _, e := range b.Zone().OutboundEtxs() {
+		if e.EtxType() == types.ConversionType && e.ETXSender().Equal(conv) {
+			nconv++
+			fmt.Println("contract conversion etx value", e.Value(), "to", e.To().Hex())
+		}
+	}
+	fmt.Println("convert status", status(b), "conversion etxs from the contract", nconv)
+	if nconv != 1 {
+		t.Fatalf("converter did not emit a conversion")
+	}
 	if fp, msg := CheckHeadCommitment(n.Nodes[Zone]); fp != "" {
 		t.Fatalf("%s %s", fp, msg)
 	}
